@@ -159,6 +159,27 @@ def thorough(prop, mod, run):
                     run.broken('SELFTEST', 'seed %s' % n, 'the confirmed seeded change %s is no longer reported by %s (expected rule %s, got %s): the check lost sensitivity'
                                % (n, prop, want, got.get(n)))
             out['selftest_seeds'] = {'expected': len(mine), 'caught': ok}
+    # ---- positive controls (hand-written, for rules no confirmed seed hits)
+    ctlf = os.path.join(VERIF, 'selftest', 'controls', 'expected.json')
+    if os.path.exists(ctlf):
+        with open(ctlf) as fh:
+            ctl = json.load(fh)['controls']
+        mine = sorted(n for n, v in ctl.items() if prop in v)
+        if mine:
+            tmpj = os.path.join(os.environ.get('TMPDIR', '/tmp'), 'grverif-controls-%s-%d.json' % (prop, os.getpid()))
+            subprocess.run([sys.executable, sm, '--checks', prop, '--dir', 'selftest/controls', '--only', ','.join(mine), '--json', tmpj], capture_output=True, text=True, cwd=VERIF)
+            try:
+                with open(tmpj) as fh:
+                    got = json.load(fh)
+                os.remove(tmpj)
+            except Exception:
+                got = {}
+            for n in mine:
+                rules = (got.get(n, {}).get('caught') or {}).get(prop)
+                if rules and set(rules) & set(ctl[n][prop]):
+                    run.held('SELFTEST', 'control %s' % n, 'selftest/controls/%s.diff' % n, 'reported by %s' % '+'.join(rules))
+                else:
+                    run.broken('SELFTEST', 'control %s' % n, 'the positive control selftest/controls/%s.diff is no longer reported by %s (expected %s, got %s)' % (n, prop, ctl[n][prop], got.get(n)))
     # ---- metamorphic: a consistent renaming of locals/parameters (all of them, and two disjoint halves) must not change any verdict
     al = 0
     for modpick in (('1', '0'), ('2', '0'), ('2', '1')):
